@@ -94,6 +94,11 @@ func (c *Context) use(t reflect.Type, ops ...option) *Type {
 		op(config)
 	}
 
+	// A nil value in a map environment has no type.
+	if t == nil {
+		return &Type{Kind: "any"}
+	}
+
 	methods := make([]reflect.Method, 0)
 
 	// Methods of struct should be gathered from original struct with pointer,
